@@ -104,12 +104,12 @@ def run_job(job):
         _rd_out, ids_out = reachable(os.path.join(w, "out"))
         plain_snapshot = None
         for qi in range(job["queries"]):
-            spelling = rng.choice(["rel", "abs", "dot", "from-elsewhere"])
+            spelling = rng.choice(["rel", "abs", "dot", "from-elsewhere", "no-from"])
             if spelling == "rel":
                 cwd, frm = w, root_name
             elif spelling == "abs":
                 cwd, frm = rng.choice([w, os.path.join(w, "elsewhere")]), root
-            elif spelling == "dot":
+            elif spelling in ("dot", "no-from"):
                 cwd, frm = root, "."
             else:
                 cwd, frm = os.path.join(w, "elsewhere"), "../" + root_name
@@ -124,7 +124,10 @@ def run_job(job):
                 neutral = rng.choice([" mindepth 1", " mindepth 1", " mindepth 0", " maxdepth 90", " mindepth 1 maxdepth 90", " maxdepth 0"])
             opt = rng.choice([" symlinks", " sym", " SYMLINKS"]) if follow else ""
             query = "path from %s%s%s%s into list" % (quote_path(frm), window or neutral, opt, mode)
-            two = follow and not window and rng.random() < 0.2
+            if spelling == "no-from":
+                # FROM left out: the current directory is searched, the root options follow the columns directly
+                query = "path%s%s%s into list" % (window or neutral, opt, mode)
+            two = follow and not window and rng.random() < 0.2 and spelling != "no-from"
             if two:
                 # a second root (the directory outside the tree that some links lead to), also followed: what is reachable from
                 # either root is listed, still once per real directory
@@ -230,5 +233,5 @@ def main(chk):
              "the option: exactly the plain walk. Non-trivial = a directory behind a link is reachable; distinct by (link kinds, spelling, "
              "mode, identities).",
         assumptions=["reachability is computed with os.path.realpath / os.path.isdir on the harness side", "with a depth window only the safety clauses are judged, except windows that exclude nothing (mindepth 0/1, maxdepth 0/90), which are judged like no window"],
-        require={"link_kinds": 11, "cases": 5, "spelling": 4, "two_followed_roots": 50},
+        require={"link_kinds": 11, "cases": 5, "spelling": 5, "two_followed_roots": 50},
     )
